@@ -217,3 +217,113 @@ def run_c05(ctx):
     cov['constructor_scripts'] = len(ctors)
     cov['constructor_lines_validated'] = total
     return 'model_checking', finish_cov(cov, items, '; constructors with 0..33 initial values are replayed from the World model'), ASSUME
+
+
+# ---------------------------------------------------------------------------
+# C06: Fork / Split / Join
+
+PIPE_QUICK = [('fork', 2, 0, 1), ('fork', 2, 1, 1), ('fork', 2, 3, 1), ('split', 2, 1, 1), ('split', 2, 3, 1), ('split', 3, 2, 1),
+              ('splitjoin', 2, 3, 1), ('splitjoin', 2, 0, 1), ('fork', 3, 2, 2)]
+PIPE_THOROUGH = [(m, k, n, c) for m in ('fork', 'split', 'splitjoin') for k in (2, 3) for n in range(0, 5) for c in (1, 2)]
+
+
+def run_c06(ctx):
+    import concurrent.futures as cf
+    ctx.build_harness()
+    confs = PIPE_QUICK if ctx.quick else PIPE_THOROUGH
+    cov = {'configs': {}, 'states': 0, 'transitions': 0, 'schedules_replayed': 0, 'drift': 0}
+    records = []
+
+    def mc(conf):
+        mode, k, n, cap = conf
+        stream = list(range(1, n + 1))
+        return conf, qe.pipes_check(ctx, mode, k, stream, cap, workers=2)
+    with cf.ThreadPoolExecutor(max_workers=max(1, core.NCPU // 2)) as ex:
+        mcs = list(ex.map(mc, confs))
+    for conf, r in mcs:
+        mode, k, n, cap = conf
+        stream = list(range(1, n + 1))
+        scheds, unc = qe.pipes_schedules(r['edges'], ctx.seed, 800 if ctx.quick else 6000)
+        res = qe.pipes_replay(ctx, mode, k, stream, cap, scheds)
+        st = {}
+        for sc, x in zip(scheds, res):
+            st[x['status']] = st.get(x['status'], 0) + 1
+            if x['status'] == 'drift':
+                ctx.drift.append('%s k=%d n=%d cap=%d schedule %d: %s' % (mode, k, n, cap, x['id'], x['detail'][:200]))
+            if x['status'] == 'ok' and sc['final'] == 'done':
+                names = ['r'] if mode == 'splitjoin' else ['r%d' % (i + 1) for i in range(k)]
+                records.append({'src': 'forced', 'mode': mode, 'k': k, 'cap': cap, 'stream': stream, 'done': True,
+                                'readers': [{'got': x['got'].get(nm) or [], 'closed': bool(x['closed'].get(nm))} for nm in names],
+                                'wg': x['wg'], 'wgspawn': x.get('wg_at_spawn') or [], 'schedule': sc})
+        cov['configs']['%s/k%d/n%d/cap%d' % conf] = {'distinct_states': r['stats'].get('distinct'), 'edges': len(r['edges']),
+                                                      'model_violations': r['violated'], 'schedules': len(scheds),
+                                                      'edges_not_covered': unc, 'replay': st}
+        cov['states'] += r['stats'].get('distinct', 0)
+        cov['transitions'] += len(r['edges'])
+        cov['schedules_replayed'] += len(scheds)
+        cov['drift'] += st.get('drift', 0)
+        if r['violated']:
+            ctx.drift.append('Pipes model %s violates %s' % (conf, r['violated']))
+    # free-running stress, plain and under the race detector
+    races = []
+    nstress = 0
+    for race in (False, True):
+        vh = ctx.build_harness(race=True) if race else ctx.vh
+        out = ctx.path('pstress_%d.ndjson' % race)
+        env = dict(os.environ)
+        logp = ctx.path('prace')
+        if race:
+            env['GORACE'] = 'log_path=%s halt_on_error=0 exitcode=0' % logp
+        n = (150, 40) if ctx.quick else (1500, 400)
+        r = subprocess.run([vh, 'pipe-stress', '-n', str(n[race]), '-seed', str(ctx.seed), '-out', out], env=env,
+                           capture_output=True, text=True, timeout=3000)
+        if r.returncode != 0:
+            raise Infra('pipe-stress failed: %s %s' % (r.stdout[-1000:], r.stderr[-1000:]))
+        for l in open(out):
+            x = json.loads(l)
+            nstress += 1
+            records.append({'src': 'stress', 'mode': x['mode'], 'k': x['k'], 'cap': x['cap'], 'stream': x['stream'],
+                            'done': x['done'], 'readers': x['readers'], 'wg': x['wg'], 'wgspawn': x['wgspawn'] or [],
+                            'blocked': x.get('blocked') or []})
+        if race:
+            for f in glob.glob(logp + '*'):
+                txt = open(f).read()
+                if 'DATA RACE' in txt:
+                    races.append(txt[:3000])
+    # property-level judgement by TLC
+    tf = ctx.path('pipes_records.ndjson')
+    with open(tf, 'w') as f:
+        for x in records:
+            f.write(json.dumps({k: x[k] for k in ('mode', 'k', 'stream', 'done', 'readers', 'wg', 'wgspawn')}) + '\n')
+    code, out = ctx.tlc('TracePipes', 'SPECIFICATION Spec\nCHECK_DEADLOCK FALSE\n', env={'TRACE': tf}, workers=1, timeout=1200,
+                        name='TP', heap='4g')
+    bad = None
+    for l in out.splitlines():
+        if l.startswith('<<"BAD"'):
+            inner = l[l.index(',') + 1:].strip().rstrip('>').strip()
+            bad = [int(t) for t in inner.strip('{}').split(',') if t.strip()]
+    if bad is None or 'No error has been found' not in out:
+        raise Infra('TracePipes failed:\n' + out[-2500:])
+    for i in bad:
+        x = records[i - 1]
+        exp = 'round-robin lanes of' if x['mode'] == 'split' else 'the whole of'
+        what = '%s k=%d cap=%d (%s run): readers received %s (closed %s), expected %s stream %s; done=%s wait group=%d, at spawn %s%s' % (
+            x['mode'], x['k'], x['cap'], x['src'], json.dumps([r['got'][:12] for r in x['readers']]),
+            [r['closed'] for r in x['readers']], exp, json.dumps(x['stream'][:12]), x['done'], x['wg'], x['wgspawn'],
+            (' blocked: %s' % x['blocked']) if x.get('blocked') else '')
+        ctx.violation(what, {'engine': 'pipes', 'record': {k: v for k, v in x.items()},
+                             'signature': {'engine': 'pipes', 'mode': x['mode'], 'done': x['done']}})
+    for txt in races[:3]:
+        ctx.violation('data race reported by the Go race detector in a free-running pipeline:\n' + txt[:1200],
+                      {'engine': 'pipes', 'kind': 'race', 'report': txt, 'signature': {'engine': 'pipes', 'kind': 'race'}})
+    cov.update({'runs_judged': len(records), 'stress_runs': nstress, 'runs_rejected': len(bad), 'race_reports': len(races),
+                'traces_validated_against_impl': len(records),
+                'samples': [{k: records[0][k] for k in ('mode', 'k', 'cap', 'stream', 'readers', 'wg')}] if records else [],
+                'exhaustive': all(c['edges_not_covered'] == 0 for c in cov['configs'].values()),
+                'rule': 'TLC explores every call-level interleaving of feeder, helper goroutines and readers on Pipes.tla for each '
+                        'configuration; an edge-covering set of behaviours is forced onto the real pipeline (helpers adopted through '
+                        'the spawn hook); every completed real run, forced or free-running, is judged by TLC against the stream '
+                        'relations of TracePipes.tla'})
+    return 'model_checking', cov, ['each queue is an atomic bounded FIFO at the call level (established separately by C04 / C05)',
+                                   'free-running runs sample schedules; data races are observed by the Go race detector only',
+                                   'exhaustive for the listed small configurations only']
